@@ -133,7 +133,7 @@ func c01Opts(r *RNG, quick bool) GenOpts {
 		TryDefer: r.Chance(45), Pipes: r.Chance(40), Sets: r.Chance(40)}
 }
 
-var c01TraceShrunk, c01CompareShrunk int
+var c01TraceShrunk, c01CompareShrunk, c01CodeShrunk int
 
 func runC01(e *Env) {
 	e.R.Rule = "programs from the structured generator over the core grammar (statement forms x expression forms, size budget 40-300 nodes " +
@@ -506,7 +506,11 @@ func c01CompareCode(e *Env, p *N, src, model string) {
 		return
 	}
 	e.R.H("bytecode", "differs")
+	c01CodeShrunk++
 	small := Shrink(p, func(q *N) bool {
+		if c01CodeShrunk > 4 {
+			return false // the first four differences of a run are shrunk, the rest reported as generated
+		}
 		c, err := CompileSrc(Src(q))
 		g := "fail"
 		if err == nil {
